@@ -204,9 +204,21 @@ def snapshot(x):
     return copy.deepcopy(x)
 
 
+def _eq(x, y):
+    """exact for rationals; a value that went through a float operation of the code under test (np.divide(1.0, q),
+    np.einsum on a converted array, ...) is no longer exact and is compared with a relative tolerance of 1e-9"""
+    if isinstance(x, (Fr, int)) and isinstance(y, (Fr, int)):
+        return x == y
+    try:
+        fx, fy = float(x), float(y)
+    except (TypeError, ValueError):
+        return False
+    return abs(fx - fy) <= 1e-9 * (1.0 + abs(fx) + abs(fy))
+
+
 def same(a, b):
     a, b = _np.asarray(a, dtype=object), _np.asarray(b, dtype=object)
-    return a.shape == b.shape and all(x == y for x, y in zip(a.reshape(-1), b.reshape(-1)))
+    return a.shape == b.shape and all(_eq(x, y) for x, y in zip(a.reshape(-1), b.reshape(-1)))
 
 
 def as_list(a):
